@@ -63,7 +63,7 @@ if seeded:
     n_hist = sum(1 for _, d in metas if "MISSED" in d.get("history", "").split("second run")[0] and d.get("history"))
     n_det = sum(1 for _, d in metas if d.get("result") == "DETECTED")
     n_apply = sum(1 for _, d in metas if "rc=1" in d.get("git_apply_run", ""))
-    out += ["%d changes (three rounds: `seed-`, `seed2-`, `seed3-`), %d detected by the current checks; %d of them were missed by the check as it stood when the change arrived and "
+    out += ["%d changes (rounds `seed-`, `seed2-`, `seed3-`, and a partial fourth `seed4-`), %d detected by the current checks; %d of them were missed by the check as it stood when the change arrived and "
             "are detected since the check was strengthened (column *history*; never by special-casing the change). "
             "%d were additionally run the literal way (`git -C /repo apply`, `./check`, `git -C /repo checkout -- .`: `driver/seed.py applyrun`), all with the same verdict." % (len(metas), n_det, n_hist, n_apply), ""]
     out += ["| id | property | what it needs to manifest | caught by | result | history |", "|---|---|---|---|---|---|"]
